@@ -681,7 +681,9 @@ def sc_c10(name, seed, mtu):
     s.boot(2, b_mac, mtu=mtu, fill=0x5A, **attrs_default())
     m = M1
     gen = rng.randrange(1, 65536)
-    s.rx([1], discover(0, m, gen=gen, seq=1))
+    # the mapper may sit behind a bridge - which may be B itself (B is the access point)
+    via = rng.choice([m, m, BR, b_mac])
+    s.rx([1], discover(0, m, gen=gen, seq=1, eth_src=via))
     s.rx([2], discover(0, m, gen=gen, seq=1))
     seq = 10
     for rnd in range(rng.randrange(2, 5)):
@@ -701,7 +703,7 @@ def sc_c10(name, seed, mtu):
         if rng.random() < 0.6:
             d0 = rng.choice(descs)
             s.rx([2], probe(d0[2], d0[3], rng.choice([X, PEER]), b_mac, train=rng.random() < 0.5))
-        s.rx([1], emit(m, a_mac, descs, seq=seq))
+        s.rx([1], emit(m, a_mac, descs, seq=seq, eth_src=via))
         s.pipe(1, 2)
         if rng.random() < 0.4:
             s.rx([2], query_large(m, b_mac, 0x11, 0, seq=seq + 100))
